@@ -50,6 +50,7 @@ type admStub struct {
 
 type admRun struct {
 	v         *app.VerifSender
+	stuck     bool // an event handler did not return
 	max       int
 	ttl       time.Duration
 	stubs     []*admStub
@@ -191,6 +192,22 @@ func (r *admRun) step(a admAct) (emits []string, trouble string) {
 	r.mu.Lock()
 	r.emitted = nil
 	r.mu.Unlock()
+	// every event handler returns: one that waits for the sender's own lock never does
+	bounded := func(f func()) bool {
+		done := make(chan struct{})
+		go func() { defer close(done); f() }()
+		select {
+		case <-done:
+			return true
+		case <-time.After(20 * time.Second):
+			return false
+		}
+	}
+	stuck := func(what string) ([]string, string) {
+		r.stuck = true
+		r.res.AddViolation(map[string]any{"kind": "event_handler_never_returns", "handler": what}, map[string]any{"steps": append([]string(nil), r.trace...)})
+		return nil, "handler " + what + " did not return"
+	}
 	switch a.A {
 	case "Join":
 		r.v.Join(a.P)
@@ -205,9 +222,13 @@ func (r *admRun) step(a admAct) (emits []string, trouble string) {
 		if !hasLive && !hasStr(r.waiting, a.P) {
 			r.waiting = append(r.waiting, a.P)
 		}
-		r.v.Accept(context.Background(), a.P)
+		if !bounded(func() { r.v.Accept(context.Background(), a.P) }) {
+			return stuck("manifest accept")
+		}
 	case "Leave":
-		r.v.Leave(a.P)
+		if !bounded(func() { r.v.Leave(a.P) }) {
+			return stuck("peer left")
+		}
 		r.connected[a.P] = false
 		r.waiting = removeStr(r.waiting, a.P)
 		for _, s := range r.stubs {
@@ -230,7 +251,9 @@ func (r *admRun) step(a admAct) (emits []string, trouble string) {
 		} else {
 			r.v.Now = r.v.Now.Add(11 * time.Minute)
 		}
-		r.v.Cleanup()
+		if !bounded(r.v.Cleanup) {
+			return stuck("cleanup tick")
+		}
 	}
 	// collect the transfers this step started (in emit order)
 	r.mu.Lock()
@@ -452,6 +475,11 @@ func Admission(args []string) {
 					"spec": post, "spec_emits": wantEmits, "real": snap, "real_emits": emits})
 				break
 			}
+		}
+		if run.stuck {
+			// the sender's lock is held for good: nothing more can be learnt from this process
+			res.Extra["stopped_after_a_handler_that_never_returned"] = true
+			break
 		}
 		run.drain(rng)
 		key := strings.Join(run.trace, ",")
